@@ -22,11 +22,18 @@ from vlib import common
 
 common.use_repo_sources()
 
-RULE = ("random plate sets: 1-12 plates of unequal sizes 1..40 (single plate, size-1 plates included), n_thetas 3..8 "
+RULE = ("random plate sets: 1-12 plates of unequal sizes 1..40 (single plate, size-1 plates included; mode 'large': 96/384-well "
+        "plates next to size-1 plates; mode 'many': 17..60 small plates so that the default max_chunk=50 splits; mode 'dynrange': "
+        "plates whose log-scores differ by > 750 inside ONE kernel call, incl. the 708..745 band where exp() of a globally "
+        "shifted term is subnormal; mode 'manythetas': n_thetas 16..25), n_thetas 3..8 "
         "(thorough 3..14) with C(n,3) <= max_combos so every triple is enumerated, means at four scales (0.01..30), variances "
         "log-uniform over 1e-3..1e3 (per cell, or per (plate, theta) for the homoscedastic entry point), symmetric "
         "non-negative distance matrices with no / some / most / all-but-one-pair / all entries zero, distance_factor "
-        "1 (mostly), 0.5, 2, 3; plus the scorer driven through real Screen/Plate/ThetaHolder/ChunkedDistanceMatrix objects. Non-trivial: >= 2 plates of different sizes and some triple with positive distance.")
+        "1 (mostly), 0.5, 2, 3; every max_chunk in {1,2,3,P-1,P,P+1,50}; scorer objects are REUSED: each is first run on a decoy "
+        "plate set of the same dense shape but other raggedness/values/distances (exposes buffers, masks or matrices kept across "
+        "chunks or calls); a third of the cases passes read-only, non-contiguous input arrays; every input is compared with a pristine copy "
+        "afterwards and the kernel is called twice on the same dense arrays; plus the scorer driven through real "
+        "Screen/Plate/ThetaHolder/ChunkedDistanceMatrix objects. Non-trivial: >= 2 plates of different sizes and some triple with positive distance.")
 
 RTOL = 1e-9
 ATOL = 1e-9
@@ -188,9 +195,33 @@ def gen(subseed, big):
     if big and n > 10:
         n_plates = min(n_plates, 5)
     mode = r.choice(["tiny", "mixed", "mixed", "wide"])
+    special = r.random()
+    if special < 0.04:
+        mode = "large"          # production plate sizes; only a few posterior samples so that the loop reference stays cheap
+        n = r.choice([3, 4, 5])
+        n_plates = r.choice([2, 3, 4])
+    elif special < 0.08:
+        mode = "many"           # more plates than the default max_chunk
+        n = r.choice([3, 4, 5])
+        n_plates = r.choice([17, 33, 51, 60])
+    elif special < 0.20:
+        mode = "dynrange"
+        n_plates = r.choice([2, 3, 4, 6])
+    elif special < 0.22:
+        mode = "manythetas"
+        n = r.choice([16, 20, 25])
+        n_plates = r.choice([1, 2, 3])
     sizes = []
     for _ in range(n_plates):
-        if mode == "tiny":
+        if mode == "large":
+            sizes.append(r.choice([1, 96, 384, 384, r.randint(50, 400)]))
+        elif mode == "many":
+            sizes.append(r.choice([1, 1, 2, 3, 5, 8]))
+        elif mode == "dynrange":
+            sizes.append(r.choice([1, 1, 2, 40, 97, 98, 99, 100, 120]))
+        elif mode == "manythetas":
+            sizes.append(r.choice([1, 2, 3, 5]))
+        elif mode == "tiny":
             sizes.append(r.choice([1, 1, 2, 3]))
         elif mode == "mixed":
             sizes.append(r.choice([1, 2, 3, 5, 8, 13, 21, 40, r.randint(1, 40)]))
@@ -214,7 +245,25 @@ def gen(subseed, big):
         U = U * keep
     D = U + U.T
     means, variances = [], []
+    if mode == "dynrange":
+        if 1 not in sizes:
+            sizes[r.randrange(len(sizes))] = 1
+        if max(sizes) < 97:
+            sizes[(sizes.index(1) + 1) % len(sizes)] = r.choice([97, 98, 99, 100])
+        if zero_mode == "all":
+            zero_mode = "none"
+            U = np.triu(g.uniform(0.5, 2, size=(n, n)), 1)
+            D = U + U.T
     for L in sizes:
+        if mode == "dynrange":
+            # a plate of L experiments with variance v and (nearly) equal means has log-score ~ -L/2 log(3 v^2):
+            # v = 1e3 -> -7.46 L, v = 1e-3 -> +6.36 L; a spread of the means at v = 1e-3 gives -1e5 per experiment
+            kind = r.choice(["flat_hi", "flat_hi", "flat_lo", "spread"]) if L > 1 else "unit"
+            v0 = {"flat_hi": 1e3, "flat_lo": 1e-3, "spread": 1e-3, "unit": 1.0}[kind]
+            sc = {"flat_hi": 1e-3, "flat_lo": 1e-6, "spread": 30.0, "unit": 0.01}[kind]
+            means.append(g.normal(size=(n, L)) * sc)
+            variances.append(v0 * np.ones((n, L)) if homo else v0 * 10.0 ** g.uniform(-0.01, 0.01, size=(n, L)))
+            continue
         means.append(g.normal(size=(n, L)) * scale + r.choice([0.0, 0.0, 5.0]))
         if homo:
             variances.append((10.0 ** g.uniform(-3, 3, size=(n, 1))) * np.ones((n, L)))
@@ -244,10 +293,41 @@ def eval_case(case, want_tie=True):
     r = c["r"]
     P = len(means)
     fails, tie = [], []
-    info = dict(n=n, sizes=c["sizes"], factor=factor, zero_mode=c["zero_mode"], homo=c["homo"], tie_safe=False, positive=False)
+    info = dict(n=n, sizes=c["sizes"], factor=factor, zero_mode=c["zero_mode"], homo=c["homo"], tie_safe=False, positive=False,
+                mode=c["mode"], dyn_gap=0.0, views=False)
+    # pristine copies (the reference, the tie lines and the "inputs untouched" oracle use these)
+    D0, means0, variances0 = D.copy(), [m.copy() for m in means], [v.copy() for v in variances]
+    if r.random() < 0.33:
+        # the same values as read-only, non-contiguous arrays: Fortran order, every second column of a wider
+        # block, a reversed view.  Nothing in the property allows the answer to depend on the memory layout.
+        info["views"] = True
+
+        def view_of(a, how):
+            if how == 0:
+                b = np.asfortranarray(a.copy())
+            elif how == 1:
+                big = np.full((a.shape[0], 2 * a.shape[1]), 123.456)
+                big[:, ::2] = a
+                b = big[:, ::2]
+            else:
+                b = a[::-1, ::-1].copy()[::-1, ::-1]
+            b.setflags(write=False)
+            return b
+        means = [view_of(m, r.randrange(3)) for m in means]
+        variances = [view_of(v, r.randrange(3)) for v in variances]
+        D = view_of(D, r.randrange(3))
+
+    def same(a, b):
+        return a.shape == b.shape and np.array_equal(a, b, equal_nan=True)
+
+    def check_untouched(where):
+        if not (same(D, D0) and all(same(a, b) for a, b in zip(means, means0)) and all(same(a, b) for a, b in zip(variances, variances0))):
+            bad("an entry point modifies its input arrays in place", {"after": where}, "inputs bit-identical after the call", "mutates-input")
+            return False
+        return True
     all_triples = [(a, b, cc) for a in range(n) for b in range(a) for cc in range(b)]
     info["positive"] = any(D[a][b] + D[b][cc] + D[a][cc] > 0 for (a, b, cc) in all_triples)
-    Dl = D.tolist()
+    Dl = D0.tolist()
 
     def call(fn, *a, **k):
         rng = RecRng(r.randrange(2 ** 32))
@@ -261,12 +341,14 @@ def eval_case(case, want_tie=True):
         fails.append((what, observed, required, sig or what))
 
     # ---- reference -------------------------------------------------------------------------
-    logs = [ref_logweights(Dl, factor, m.tolist(), v.tolist(), all_triples) for m, v in zip(means, variances)]
+    logs = [ref_logweights(Dl, factor, m.tolist(), v.tolist(), all_triples) for m, v in zip(means0, variances0)]
     ref = [ref_score(l) for l in logs]
+    fin = [x for x in ref if math.isfinite(x)]
+    info["dyn_gap"] = (max(fin) - min(fin)) if len(fin) >= 2 else 0.0
     safe = all((not l) or (-600.0 < max(l) < 600.0) for l in logs)
     info["tie_safe"] = safe
     if safe and sum(c["sizes"]) * c["C"] < 4000:
-        ref2 = [ref_direct_product(Dl, factor, m.tolist(), v.tolist(), all_triples) for m, v in zip(means, variances)]
+        ref2 = [ref_direct_product(Dl, factor, m.tolist(), v.tolist(), all_triples) for m, v in zip(means0, variances0)]
         if not all_close(ref, ref2):
             raise RuntimeError("harness references disagree: %r %r" % (ref, ref2))
 
@@ -291,14 +373,19 @@ def eval_case(case, want_tie=True):
                 {"some_positive_distance": pos}, "finite")
             break
     if want_tie:
-        tie.append(("het", "dbal.het %d %s %s %s %s" % (f2b(factor), enc_mat(Dl), enc_triples(ts_het[0]), enc_3d(means), enc_3d(variances)), het))
+        tie.append(("het", "dbal.het %d %s %s %s %s" % (f2b(factor), enc_mat(Dl), enc_triples(ts_het[0]), enc_3d(means0), enc_3d(variances0)), het))
     if want_tie and safe:
-        tie.append(("direct", "dbal.direct %d %s %s %s %s" % (f2b(factor), enc_mat(Dl), enc_triples(ts_het[0]), enc_3d(means), enc_3d(variances)), het))
+        tie.append(("direct", "dbal.direct %d %s %s %s %s" % (f2b(factor), enc_mat(Dl), enc_triples(ts_het[0]), enc_3d(means0), enc_3d(variances0)), het))
+    check_untouched("heteroscedastic")
 
     # ---- entry point 2: vectorised on arrays padded wider than needed -------------------------
     extra = r.choice([0, 1, 5, 17])
     W = max(c["sizes"]) + extra
-    pm, pv = pad_dense(means, W, 0.0), pad_dense(variances, W, np.nan)
+    pm, pv = pad_dense(means0, W, 0.0), pad_dense(variances0, W, np.nan)
+    pm0, pv0 = pm.copy(), pv.copy()
+    if info["views"]:
+        pm.setflags(write=False)
+        pv.setflags(write=False)
     vec, ts_vec = call(gd.dbal_fast_gauss_scoring_vectorized, predictions=pm, variances=pv, distance_matrix=D,
                        max_combos=c["max_combos"], distance_factor=factor)
     if isinstance(vec, str):
@@ -307,12 +394,22 @@ def eval_case(case, want_tie=True):
         vec = [float(x) for x in vec]
         if not all_close(vec, ref):
             bad("vectorised scores on wider padding differ from the direct estimator", {"pad_width": W, "scores": vec}, ref, "padding")
+        if not (same(pm, pm0) and same(pv, pv0)):
+            bad("the vectorised entry point modifies its dense input arrays in place (NaN padding / means overwritten)",
+                {"pad_width": W}, "inputs bit-identical after the call", "mutates-input")
+        # the same dense arrays scored a second time
+        vec2, _ = call(gd.dbal_fast_gauss_scoring_vectorized, predictions=pm, variances=pv, distance_matrix=D,
+                       max_combos=c["max_combos"], distance_factor=factor)
+        if isinstance(vec2, str) or not all_close([float(x) for x in vec2], ref):
+            bad("scoring the same dense arrays a second time gives other scores", {"pad_width": W, "second": vec2 if isinstance(vec2, str) else [float(x) for x in vec2]}, ref, "second-call")
         if want_tie:
-            tie.append(("vec", "dbal.vec %d %s %s %s %s" % (f2b(factor), enc_mat(Dl), enc_triples(ts_vec[0]), enc_3d(pm), enc_3d(pv)), vec))
+            tie.append(("vec", "dbal.vec %d %s %s %s %s" % (f2b(factor), enc_mat(Dl), enc_triples(ts_vec[0]), enc_3d(pm0), enc_3d(pv0)), vec))
 
     # ---- entry point 3: homoscedastic ----------------------------------------------------------
     if c["homo"]:
-        hv = np.array([v[:, 0] for v in variances])
+        hv = np.array([v[:, 0] for v in variances0])
+        if info["views"]:
+            hv.setflags(write=False)
         hom, ts_hom = call(gd.dbal_fast_gaussian_scoring_homoscedastic, per_plate_predictions=means, variances=hv,
                            distance_matrix=D, max_combos=c["max_combos"], distance_factor=factor)
         if isinstance(hom, str):
@@ -322,7 +419,8 @@ def eval_case(case, want_tie=True):
             if not all_close(hom, ref):
                 bad("homoscedastic scores differ from the direct estimator", hom, ref, "entrypoints")
             if want_tie:
-                tie.append(("hom", "dbal.hom %d %s %s %s %s" % (f2b(factor), enc_mat(Dl), enc_triples(ts_hom[0]), enc_3d(means), enc_mat(hv.tolist())), hom))
+                tie.append(("hom", "dbal.hom %d %s %s %s %s" % (f2b(factor), enc_mat(Dl), enc_triples(ts_hom[0]), enc_3d(means0), enc_mat(hv.tolist())), hom))
+        check_untouched("homoscedastic")
 
     # ---- entry point 4: the scorer (factor is always 1.0 there) --------------------------------
     ids = r.sample(range(100), P)
@@ -332,24 +430,46 @@ def eval_case(case, want_tie=True):
     else:
         ref1 = [ref_score(ref_logweights(Dl, 1.0, m.tolist(), v.tolist(), all_triples)) for m, v in zip(means, variances)]
     chunks = sorted(set([1, 2, 3, max(1, P - 1), P, P + 1, 50]))
-    picked = r.sample(chunks, min(3, len(chunks)))
-    for mc in picked:
+    r.shuffle(chunks)
+    if sum(c["sizes"]) * c["C"] > 30000:
+        chunks = chunks[:3]
+    # decoy: same n, same number of plates and the same multiset of sizes (so every sub-group has the same dense shape
+    # as in the real call) but the sizes rotated (another raggedness in every slot), other values, other distances
+    rot = c["sizes"][1:] + c["sizes"][:1]
+    gdec = np.random.default_rng(r.randrange(2 ** 32))
+    decoy = {i: StubPlate(gdec.normal(size=(n, L)) * 3.0, 10.0 ** gdec.uniform(-2, 2, size=(n, L))) for i, L in zip(ids, rot)}
+    Udec = np.triu(gdec.uniform(0.1, 5.0, size=(n, n)), 1)
+    Ddec = Udec + Udec.T
+    for ci, mc in enumerate(chunks):
         sc = gd.GaussianDBALScorer(max_chunk=mc, max_triples=c["max_combos"])
-        out, tss = call(sc.score, plates=plates, distance_matrix=StubDM(D), samples=StubThetas(n), progress_bar=False)
+        reused = ci < 3
+        if reused:
+            # the scorer object has a history: it scored the decoy set before
+            o_dec, _ = call(sc.score, plates=decoy, distance_matrix=StubDM(Ddec), samples=StubThetas(n), progress_bar=False)
+            if isinstance(o_dec, str):
+                bad("scorer raises on valid input", {"max_chunk": mc, "error": o_dec}, "scores", "raises")
+                continue
+        use = plates
+        if ci == 1 and P >= 2:
+            use = dict(reversed(list(plates.items())))      # the same dict in the opposite insertion order
+        out, tss = call(sc.score, plates=use, distance_matrix=StubDM(D), samples=StubThetas(n), progress_bar=False)
         if isinstance(out, str):
             bad("scorer raises on valid input", {"max_chunk": mc, "error": out}, "scores", "raises")
             continue
-        if list(out.keys()) != ids:
-            bad("scorer does not return exactly the given plate ids", {"max_chunk": mc, "keys": [int(k) for k in out.keys()]}, ids, "scorer")
+        if list(out.keys()) != list(use.keys()):
+            bad("scorer does not return exactly the given plate ids", {"max_chunk": mc, "keys": [int(k) for k in out.keys()]}, [int(k) for k in use.keys()], "scorer")
             continue
         got = [float(out[i]) for i in ids]
         if not all_close(got, ref1):
-            bad("scorer result for a plate differs from the direct estimator of that plate",
-                {"max_chunk": mc, "scores": got}, ref1, "scorer")
-        if want_tie and mc == picked[0]:
+            bad("scorer result for a plate differs from the direct estimator of that plate"
+                + (" (scorer object previously used on another plate set)" if reused else "")
+                + (" (plates given in the opposite order)" if use is not plates else ""),
+                {"max_chunk": mc, "scores": got, "reused_scorer": reused, "reversed_order": use is not plates}, ref1, "scorer")
+        if want_tie and ci == 0:
             line = "dbal.scorer %d %d %s %s %s %s %s" % (n, mc, enc_mat(Dl), "/".join(enc_triples(t) for t in tss),
-                                                        ",".join(str(i) for i in ids), enc_3d(means), enc_3d(variances))
+                                                        ",".join(str(i) for i in ids), enc_3d(means0), enc_3d(variances0))
             tie.append(("scorer", line, got))
+    check_untouched("scorer")
 
     # ---- metamorphic runs on the implementation -------------------------------------------------
     def het_of(ms, vs, d=D):
@@ -379,6 +499,7 @@ def eval_case(case, want_tie=True):
     o = het_of([m[sig, :] for m in means], [v[sig, :] for v in variances], D[np.ix_(sig, sig)])
     if isinstance(o, str) or not all_close(o, het):
         bad("scores change under a consistent relabelling of the posterior samples", {"sigma": sig.tolist(), "scores": o}, het, "relabel")
+    check_untouched("metamorphic runs")
     return fails, tie, info
 
 
@@ -592,6 +713,15 @@ def run(ctx, res):
         res.count("homoscedastic" if info["homo"] else "heteroscedastic")
         if 1 in info["sizes"]:
             res.count("has_size1_plate")
+        res.count("mode.%s" % info["mode"])
+        if info["views"]:
+            res.count("inputs.readonly_noncontiguous")
+        if max(info["sizes"]) >= 96:
+            res.count("has_plate_of_96+_wells")
+        if len(info["sizes"]) > 50:
+            res.count("plates.51+")
+        g_ = info["dyn_gap"]
+        res.count("logscore_gap_in_one_call." + ("<100" if g_ < 100 else "100-708" if g_ < 708 else "708-745" if g_ <= 745 else ">745"))
         res.count("direct_tie.in_double_range" if info["tie_safe"] else "direct_tie.skipped_unshifted_sum_leaves_double_range")
         if len(set(info["sizes"])) >= 2 and info["positive"]:
             res.nontrivial.add((info["n"], tuple(info["sizes"]), info["zero_mode"], info["factor"], info["homo"]))
